@@ -456,6 +456,7 @@ func (w *World) SetForceAdoption(on bool) {
 // Reset starts a new scenario inside one trace file: fresh store, fresh controllers.
 func (w *World) Reset(name string) {
 	w.Store = NewStoreLike(w.Store)
+	w.faultSeq = len(name) // the kind of the first injected fault varies with the scenario, deterministically
 	w.Dyn.Reset()
 	w.SetForceAdoption(false)
 	w.BuildControllers()
